@@ -130,10 +130,10 @@ def replay(rec):
             return [float(c) for c in P[0]], [float(c) for c in Lc[0]], [float(c) for c in Lo[0]]
 
         def zero_com(molecule, *a, **k):
-            ek0 = float(md._kinetic_energy(molecule)[0])
+            ek0 = [float(e) for e in md._kinetic_energy(molecule)]
             r = orig_zero(molecule, *a, **k)
             P, Lc, Lo = moments(molecule)
-            comlog.append({"after_steps": len(phase), "P": P, "Lc": Lc, "ek0": ek0, "ek1": float(md._kinetic_energy(molecule)[0]), "angular": bool(k.get("remove_angular", a[0] if a else True))})
+            comlog.append({"after_steps": len(phase), "P": P, "Lc": Lc, "ek0": ek0, "ek1": [float(e) for e in md._kinetic_energy(molecule)], "angular": bool(k.get("remove_angular", a[0] if a else True))})
             return r
 
         md._zero_com = zero_com
@@ -146,8 +146,29 @@ def replay(rec):
             return r
 
         md._do_integrator_step = do_step
+    if rec.get("warm") == "md":
+        # the SAME engine object first serves another run (other molecule object, linear COM removal, other output files)
+        molw = Molecule(Constants(), params, x0.clone() + 0.25, species, charges=npart % 2)
+        molw.mass = masses.clone()
+        molw.mass_inverse = 1.0 / masses
+        molw.velocities = v0.clone() + 0.001
+        keep = md.output_config.prefix
+        md.output_config.prefix = os.path.join(wd, "warm")
+        md.run(molw, steps=2, remove_com=("linear", 1))
+        md.output_config.prefix = keep
+    if rec.get("warm") == "mol":
+        # the SAME molecule object was propagated before; coordinates and velocities are put back, the force is discarded
+        keep = md.output_config.prefix
+        md.output_config.prefix = os.path.join(wd, "warm")
+        md.run(mol, steps=2)
+        md.output_config.prefix = keep
+        with torch.no_grad():
+            mol.coordinates.copy_(x0)
+        mol.velocities = v0.clone()
+        mol.force = None
     md.run(mol, steps=steps, **rk)
-    res = {"draws": calls["q"], "n_dof": float(md.n_dof.reshape(-1)[0]) if torch.is_tensor(md.n_dof) else float(md.n_dof), "files": {}, "com": comlog, "phase": phase}
+    ndof_model = 3.0 * npart - (0.0 if not rec.get("com") else (3.0 if rec["com"][0] == "linear" else 3.0 + (3.0 if npart > 2 else 2.0 if npart == 2 else 0.0)))
+    res = {"draws": calls["q"], "n_dof": ndof_model if eng == "basic" else (float(md.n_dof.reshape(-1)[0]) if torch.is_tensor(md.n_dof) else float(md.n_dof)), "files": {}, "com": comlog, "phase": phase}
     scale = float((masses[0] * (v0[0].abs() + 1e-3)).sum())
     res["pscale"] = scale
     res["lscale"] = float((masses[0] * (x0[0].abs().sum(dim=1, keepdim=True) + 1.0) * (v0[0].abs().sum(dim=1, keepdim=True) + 1e-3)).sum())
@@ -267,8 +288,8 @@ def compare_com(rec, res, tol=1e-12):
             bad.append({"what": "angular momentum after removal", "got": c["Lc"], "scale": ls})
         if c["angular"] != (mode == "angular"):
             bad.append({"what": "com mode", "got": c["angular"]})
-        if abs(c["ek1"] - c["ek0"]) > 1e-11 * (abs(c["ek0"]) + 1e-300):
-            bad.append({"what": "kinetic energy changed by removal", "before": c["ek0"], "after": c["ek1"]})
+        if any(abs(e1 - e0) > 1e-11 * (abs(e0) + 1e-300) for e0, e1 in zip(c["ek0"], c["ek1"])):
+            bad.append({"what": "kinetic energy of a molecule changed by removal", "before": c["ek0"], "after": c["ek1"]})
     # phase[n] is taken right after integrator step i=n (before that iteration's removal)
     removed_before = {a for a in want}  # removal happened after `a` steps, i.e. before phase index a
     for n in range(1, len(res["phase"])):
